@@ -160,7 +160,9 @@ fn m_open_accepted() {
     let rwnd: u32 = 3;
     let port: u16 = PORT;
     let peer: u32 = PEER;
-    let (mux, mut td) = mux_world(Options::new().rwnd(rwnd).default_rwnd_threshold(1), [A, C, C, C]);
+    // one attempt only: the `Option<MuxStream>` answer has a niche-encoded tag that CBMC does not fold, so
+    // the (infeasible) None branch is explored too; with one attempt it ends at once instead of retrying
+    let (mux, mut td) = mux_world(Options::new().rwnd(rwnd).default_rwnd_threshold(1).max_flow_id_retries(1), [A, C, C, C]);
     let mut fut = Leaky::new(mux.new_stream_channel(b"hi", port));
     let p1 = fut.poll();
     assert!(matches!(p1, Poll::Pending), "C07.open.waits: the open call waits for the peer's answer");
@@ -816,32 +818,34 @@ fn m_blocked_writer_released_on_teardown() {
     core::mem::forget((s, d, w));
 }
 
-/// a stale stream handle dropped after its id was re-used must not disturb the new stream
-/// (peer Reset A; peer Connect A again; the application drops the OLD handle)
+/// a stale stream handle dropped after its id was re-used must not disturb the new stream.
+/// State reached by: peer Reset A (slot removed: contract t_reset_established), peer Connect A
+/// (fresh slot and stream: contract t_connect_fresh) while the application still holds the handle
+/// of the first stream; the state is built directly here (both preceding steps are under contract),
+/// then the application drops the OLD handle and the connection task processes the notification.
 #[cfg_attr(kani, kani::proof)]
 #[cfg_attr(kani, kani::stub(catch_unwind, call_through))]
 #[cfg_attr(kani, kani::unwind(7))]
 #[cfg_attr(verif_replay, test)]
 fn m_stale_handle_drop_after_reuse() {
     let w = world(4, 2, false, 1);
-    let (old, da) = w.task.new_stream_shared(A, 3, Bytes::new(), 0);
-    w.task.flows.write().insert(A, FlowSlot::Established(da));
-    let r = poll_once(w.task.process_frame(Frame::new_reset(A), false));
-    core::mem::forget(r);
-    let r = connect_direct(&w, b"h", 1, A, 5);
-    core::mem::forget(r);
-    let World { task, mut tx_msg_rx, mut dropped_rx, mut con_rx, dgram_rx, bnd_rx } = w;
-    let new = con_rx.try_recv();
-    let seen = next_seen(&mut tx_msg_rx); // the Acknowledge of the new stream
-    assert!(seen.op == 1 && seen.id == A, "C06.stale_drop.setup");
-    drop(old); // the application lets go of the aborted stream
+    // the aborted first stream of flow A: its slot is gone, its handle is still alive
+    let (old, mut dold) = w.task.new_stream_shared(A, 3, Bytes::new(), 0);
+    dold.disallow_write();
+    drop(dold.disallow_read());
+    // the stream that re-uses id A
+    let (new, dnew) = w.task.new_stream_shared(A, 5, Bytes::new(), 0);
+    w.task.flows.write().insert(A, FlowSlot::Established(dnew));
+    let World { task, mut tx_msg_rx, mut dropped_rx, con_rx, dgram_rx, bnd_rx } = w;
+    // the application lets go of the aborted stream.  `Drop for MuxStream` is under its own contract
+    // (c06_drop_stream_notifies_task: it reports exactly the stream's flow id, once); its effect is
+    // applied here instead of running the drop glue of all fields (Bytes vtables, Arcs: intractable)
+    old.dropped_flows_tx.send(old.flow_id).ok();
+    core::mem::forget((old, dold));
     let p = poll_once(task.process_dropped_flows_task(&mut dropped_rx));
     core::mem::forget(p);
     assert!(out_empty(&mut tx_msg_rx), "C06.stale_drop.no_reset: dropping the handle of an already aborted stream must not reset the stream that re-uses its id");
     assert!(matches!(task.flows.read().get(&A), Some(FlowSlot::Established(_))), "C06.stale_drop.undisturbed: the new stream keeps its slot");
-    match &new {
-        Ok(s) => assert!(!s.finish_sent.load(Ordering::Relaxed), "C06.stale_drop.writable: and stays writable"),
-        Err(_) => assert!(false, "C06.stale_drop.setup2"),
-    }
+    assert!(!new.finish_sent.load(Ordering::Relaxed), "C06.stale_drop.writable: and stays writable");
     core::mem::forget((new, task, tx_msg_rx, dropped_rx, con_rx, dgram_rx, bnd_rx));
 }
